@@ -62,7 +62,12 @@ pub fn url_probe<M: Message + Default + PartialEq + TypeUrl>(sample: &[u8], me: 
         Ok(v) => (v != d, any_round_trip(&v).0, v.encode_to_vec()),
         Err(_) => (false, false, vec![]),
     };
-    let accepts = |u: &str| M::from_any(&Any { type_url: u.to_string(), value: value_bytes.clone() }).is_ok();
+    // a foreign / mangled URL must be refused whatever the payload: the non-default value AND the empty payload
+    // (the encoding of every default message), so that a shortcut taken before the URL comparison is seen
+    let accepts = |u: &str| {
+        M::from_any(&Any { type_url: u.to_string(), value: value_bytes.clone() }).is_ok()
+            || M::from_any(&Any { type_url: u.to_string(), value: vec![] }).is_ok()
+    };
     let foreign: Vec<&str> = all.iter().enumerate().filter(|(j, u)| *j != me && accepts(u)).map(|(_, u)| *u).collect();
     let mangled_all: Vec<String> = vec![
         url.trim_start_matches('/').to_string(),
